@@ -413,7 +413,7 @@ pub fn run(cmd: &str, args: &[&str]) -> String {
             // join with a watchdog
             let (dtx, drx) = std::sync::mpsc::channel();
             std::thread::spawn(move || { let r = handle.join(); let _ = dtx.send(r.is_ok()); });
-            let res = drx.recv_timeout(std::time::Duration::from_secs(20));
+            let res = drx.recv_timeout(std::time::Duration::from_secs(45));
             let ms = t0.elapsed().as_millis();
             let _ = tx.send(ControlEvent::Stop);
             let mut best = 0usize;
@@ -421,7 +421,7 @@ pub fn run(cmd: &str, args: &[&str]) -> String {
             match res {
                 Ok(true) => format!("joined {} best={}", ms, best),
                 Ok(false) => "search-thread-panicked".into(),
-                Err(_) => format!("NOT-JOINED-after-20s best={}", best),
+                Err(_) => format!("NOT-JOINED-after-45s best={}", best),
             }
         }
         ("book", [fen]) => match state_of(fen) {
@@ -438,6 +438,25 @@ pub fn run(cmd: &str, args: &[&str]) -> String {
                 }
             }
         },
+        ("analyze", [seed, depth, fen]) => {
+            // the PUBLIC entry point (own threads, default table, worker count chosen by the engine); events only
+            use weechess_engine::searcher::{Searcher, StatusEvent};
+            let Some(st) = state_of(fen) else { return "badfen".into() };
+            let (handle, _tx, rx) = Searcher::new().analyze(st, seed.parse().unwrap(), weechess_engine::eval::Evaluator::default(), Some(depth.parse().unwrap()), None);
+            let mut evs: Vec<String> = Vec::new();
+            while let Ok(e) = rx.recv() {
+                match e {
+                    StatusEvent::BestMove { line, evaluation } => {
+                        let ev: i32 = evaluation.into();
+                        evs.push(format!("B{}:{}", ev, line.iter().map(|m| m.as_raw().to_string()).collect::<Vec<_>>().join(",")));
+                    }
+                    StatusEvent::Progress { depth, nodes_searched, .. } => evs.push(format!("P{}:{}", depth, nodes_searched)),
+                    StatusEvent::Warning { .. } => {}
+                }
+            }
+            let _ = handle.join();
+            evs.join(" ")
+        }
         ("jitter", [seed, n]) => {
             use rand::{Rng, RngCore, SeedableRng};
             let mut rng = rand_chacha::ChaCha8Rng::seed_from_u64(seed.parse().unwrap());
